@@ -259,7 +259,18 @@ def run_check(modname, tier, seed, replay=None, workers=None):
 
 
 def sig_matches(known_sig, sig):
-    return known_sig == sig
+    """exact match, except that a known value of the form {"any_of": [...]}
+    admits any listed value for that key (one defect reached through several
+    operand kinds); keys must coincide."""
+    if set(known_sig) != set(sig):
+        return False
+    for k, v in known_sig.items():
+        if isinstance(v, dict) and "any_of" in v:
+            if sig[k] not in v["any_of"]:
+                return False
+        elif v != sig[k]:
+            return False
+    return True
 
 
 def report(mod, tier, seed, agg, known, vac, wall, replay):
